@@ -22,7 +22,23 @@
 //!    of Concepts, stance, confidence, mode of Assertions - each only for a kind where EVERY source
 //!    that reaches it masks the member; the battery constrains the indexed ones in element
 //!    patterns (bare, COUNT, NOT, OPTIONAL, UNION, paged, EXPORT);
+//!    REFERENCE members vary the same way (same ids in S1 and S2, another target where every
+//!    source over the kind masks the member): subject / object of Propositions (shape "masked
+//!    propositions beside unmasked concepts": p reads both endpoints, only not that this
+//!    proposition connects them), what an Assertion is about / by / cites, what an Evidence record
+//!    derives from; battery families `masked_tuple` (tuple patterns with a bound subject / bound
+//!    object / both variables / a variable predicate, joined with element patterns, hop-quantified
+//!    and alternated paths, NOT / OPTIONAL / UNION / COUNT, ORDER BY + LIMIT, paging, AS OF,
+//!    EXPORT by tuple and with a referential closure), `belief_tuple` (BELIEF by tuple, BELIEF
+//!    SLOT; also of a slot that holds one more hidden proposition in the bigger instance) and
+//!    `masked_link` (assertions by proposition / actor, citations and sources read, counted and
+//!    exported with a provenance closure). The predicate of a Proposition never varies: it is the
+//!    Schema symbol the element is typed by, which stays selectable under a mask like `type`;
 //!    plus, per store: `SEARCH .. LIMIT k` is a prefix of `SEARCH .. LIMIT 100` ("not paged over"),
+//!    walking `SEARCH .. LIMIT k` (k = 1, 2, 3) by `next_cursor` to the end gives exactly the hits
+//!    of `SEARCH .. LIMIT 100` (the pages after the first; where the bigger instance has a hidden
+//!    crowd, four visible hits sit behind six unreadable ones, and the same walks are compared
+//!    across S1 / S2),
 //!    and a command family whose permission p does not hold (search / read_history / export /
 //!    project) is refused;
 //!  * authority timeline: after a revocation / suspension / expiry / explicit deny, p's next
@@ -30,13 +46,19 @@
 //!    principal holding nothing is refused every FIND/SEARCH/HISTORY/CHANGES/EXPORT/PREVIEW;
 //!    one of two sources removed: p's next request equals that of a fresh principal holding the
 //!    other source only;
+//!    p again through a session that NAMES its delegation chain (`AuthContext::with_delegation_chain`,
+//!    one- and two-link chains): after the last link, an ancestor link or the delegator's grant is
+//!    revoked (or p is suspended / revoked / denied) its next request is refused, or answered
+//!    exactly as a principal that holds nothing is;
 //!    delegation: every Delegation record states its own bounds, drawn independently of what it
 //!    descends from (not stated / restated / narrower / WIDER, per bound: classification ceiling as
 //!    constraint and as scope list, field mask, max_results, kinds, actions, influence-authority
 //!    ceiling; chains of 1-3 links; also "only an earlier link states the bound"). Against every
 //!    principal up the chain: whatever is denied to it now is denied to the delegate now, the
 //!    delegate sees no element id, no member of an element and no more rows than it does, and
-//!    raises no element's influence authority (host API) where it is refused;
+//!    raises no element's influence authority (host API) where it is refused; the delegate's
+//!    chain-naming session is held to the same oracles, and once the delegate's own (last)
+//!    Delegation is revoked both of its sessions are refused every read of the Space's content;
 //!  * no self-escalation: no KML/KQL/META command of any session changes a gov_* collection
 //!    (audit may gain rows), a Space's governance columns or an existing element's governance
 //!    block; no session without write authority gets a mutation executed; a writer whose ceiling is
@@ -88,6 +110,12 @@ enum PVal {
     MaskedMode(usize),
     MaskedName(usize),
     MaskedKey(usize),
+    /// a REFERENCE member of a visible element - subject / object of a proposition (never its
+    /// predicate: the symbol an element is typed by stays selectable under a mask), the
+    /// proposition / actor / cited evidence of an assertion, the source of an evidence record -
+    /// as `{"id": ..}`: symbol `s2` in S2 only where every authority of p that reaches the kind
+    /// masks the view member `tag`, symbol `s1` everywhere else
+    MaskedRef { tag: &'static str, s1: String, s2: String },
     /// the id of the k-th transaction AFTER the common part of the script (in S2 a commit of the
     /// hidden tail, in S1 one of the padding commits on a hidden element)
     TailTx(u64),
@@ -133,6 +161,35 @@ struct Script {
     /// a word of a visible person's name that a crowd of hidden tail elements repeats (they
     /// outrank the visible match in a keyword search)
     crowd_word: Option<String>,
+    /// (subject, predicate) of tail propositions whose subject is a base-script person: a slot
+    /// that holds one more (hidden) proposition in the bigger instance
+    tail_slots: Vec<(String, String)>,
+    /// (step index, symbol, subject, predicate, object) of every base-script proposition
+    prop_tuples: Vec<(usize, String, String, String, String)>,
+    /// propositions whose tuple has another value in S2 under a mask that hides the member
+    masked_tuples: Vec<MaskedTuple>,
+    /// assertions (and one evidence record) appended to the base script whose reference members
+    /// have another target in S2 under a mask that hides the member
+    late: Vec<Late>,
+}
+
+/// A proposition with the same id in S1 and S2 whose tuple differs where p's mask hides the member.
+#[derive(Clone, Debug)]
+struct MaskedTuple {
+    sym: String,
+    /// (subject, predicate, object) in S1 / in S2 when subject and object are both masked
+    s1: (String, String, String),
+    s2: (String, String, String),
+}
+
+/// An element created after the propositions whose references differ under a mask.
+#[derive(Clone, Debug)]
+struct Late {
+    sym: String,
+    /// S1 targets: proposition, actor, cited evidence (assertions) / source (the evidence record)
+    prop: Option<String>,
+    actor: Option<String>,
+    evidence: Option<String>,
 }
 
 struct World {
@@ -149,6 +206,11 @@ struct World {
     vary_mode: bool,
     vary_name: bool,
     vary_key: bool,
+    /// reference members (view keys) that follow the variant in this instance: `subject`,
+    /// `object` of propositions, `proposition_id`, `asserted_by`, `evidence_refs`
+    /// of assertions, `source_refs` of evidence - each only where every authority of p that
+    /// reaches the kind masks it
+    vary_links: BTreeSet<&'static str>,
     /// Space sequence after the common part of the script
     base_seq: u64,
     /// Space sequence before the first step of the script
@@ -188,6 +250,7 @@ impl World {
             vary_mode: false,
             vary_name: false,
             vary_key: false,
+            vary_links: BTreeSet::new(),
             base_seq: 0,
             start_seq: 0,
             hidden_as: HiddenAs::Label("secret".into()),
@@ -215,6 +278,7 @@ impl World {
                     PVal::MaskedMode(i) => script.hidden_vals[if self.vary_mode { variant } else { 0 }][*i].clone(),
                     PVal::MaskedName(i) => script.hidden_vals[if self.vary_name { variant } else { 0 }][*i].clone(),
                     PVal::MaskedKey(i) => script.hidden_vals[if self.vary_key { variant } else { 0 }][*i].clone(),
+                    PVal::MaskedRef { tag, s1, s2 } => json!({"id": self.id(if variant == 1 && self.vary_links.contains(tag) { s2 } else { s1 })}),
                 },
             );
         }
@@ -478,6 +542,7 @@ fn gen_script(rng: &mut Rng, size: usize) -> Script {
         }
         cmd.push('}');
         s.steps.push(Step::Kml { cmd, params, binds });
+        s.prop_tuples.push((s.steps.len() - 1, psym.clone(), subj.clone(), pred.to_string(), obj.clone()));
         // a proposition is hidden when explicitly classified; endpoints may be hidden independently
         if rng.chance(1, 4) {
             s.steps.push(Step::Classify { sym: psym.clone(), label: HIDDEN_LABEL });
@@ -522,6 +587,9 @@ fn gen_script(rng: &mut Rng, size: usize) -> Script {
         let other = if rng.bool() { rng.pick(&s.persons).clone() } else { sym.clone() };
         let (subj, obj) = if rng.bool() { (sym.clone(), other) } else { (other, sym.clone()) };
         let pred = *rng.pick(&["prefers", "mentions"]);
+        if !subj.starts_with("tail_") {
+            s.tail_slots.push((subj.clone(), pred.to_string()));
+        }
         s.tail.push(Step::Kml {
             cmd: format!("ENSURE PROPOSITION ?p (:s, \"{pred}\", :o)"),
             params: vec![("s".into(), PVal::Ref(subj)), ("o".into(), PVal::Ref(obj))],
@@ -564,7 +632,138 @@ fn gen_script(rng: &mut Rng, size: usize) -> Script {
             s.crowd_word = Some(word);
         }
     }
+    // reference members that a mask can hide; drawn from a stream of their own so that everything
+    // above is the script the seed always gave
+    let mut r2 = Rng::new(rng.clone().next_u64() ^ 0xC19C_0DE5);
+    vary_structure(&mut s, &mut r2);
+    // a hidden crowd outranks SEVERAL visible hits: a paged search has later pages to lose
+    if let Some(word) = s.crowd_word.clone() {
+        let others: Vec<&str> = WORDS.iter().copied().filter(|w| *w != word).collect();
+        for j in 0..3usize {
+            let mut name = word.clone();
+            for _ in 0..=j {
+                name.push(' ');
+                name.push_str(*r2.pick(&others[..]));
+            }
+            let sym = format!("echo{j}");
+            s.steps.push(Step::Kml {
+                cmd: r#"CREATE CONCEPT ?c { TYPE "Person" NAME :name SET ATTRIBUTES {nickname: "echo"} }"#.into(),
+                params: vec![("name".into(), PVal::Lit(json!(name)))],
+                binds: vec![("c".into(), sym.clone())],
+            });
+            s.visible.push(sym);
+        }
+        // (the tail's concepts come after them)
+        s.first_tail_concept = format!("C-{}", s.persons.len() + 2 + 3);
+    }
     s
+}
+
+const PREDICATES: [&str; 3] = ["prefers", "mentions", "status"];
+
+/// Gives reference members of visible elements a second value for S2 (taken only where p's mask
+/// hides the member, see `PVal::MaskedRef`): subject / object of about two thirds of the
+/// propositions (ids stay the same: within every instance, whichever of the two members varies
+/// there, no two propositions share a tuple; the predicate never varies - it is the Schema symbol
+/// the proposition is typed by, `Element::schema_ref`, what a Grant's scope is written in, and
+/// like a Concept's `type` it stays selectable under a mask), and - appended to the base script -
+/// assertions whose proposition / actor / cited evidence and an evidence record whose source
+/// have another target. Alternatives are elements that are not explicitly hidden, with the same
+/// (absent) label where classification joins along the link (cited evidence, sources).
+fn vary_structure(s: &mut Script, r: &mut Rng) {
+    let visible = |pool: &[String], hidden: &BTreeSet<String>| pool.iter().filter(|x| !hidden.contains(*x)).cloned().collect::<Vec<String>>();
+    let persons = visible(&s.persons, &s.hidden);
+    let props = visible(&s.props, &s.hidden);
+    let evidence = visible(&s.evidence, &s.hidden);
+    let other = |r: &mut Rng, pool: &[String], not: &str| -> Option<String> {
+        let c: Vec<&String> = pool.iter().filter(|x| x.as_str() != not).collect();
+        if c.is_empty() { None } else { Some((*r.pick(&c)).clone()) }
+    };
+    // --- tuples: alts[i][c] = the tuple of proposition i in an instance where the members in bit
+    // set c (1 subject, 2 object) follow S2
+    let base: Vec<(String, String, String)> = s.prop_tuples.iter().map(|(_, _, a, b, c)| (a.clone(), b.clone(), c.clone())).collect();
+    let mut alts: Vec<Vec<(String, String, String)>> = base.iter().map(|t| vec![t.clone(); 4]).collect();
+    for i in 0..base.len() {
+        if !r.chance(2, 3) {
+            continue;
+        }
+        for _try in 0..20 {
+            let (mut s2, pred, mut o2) = base[i].clone();
+            let which = 1 + r.below(3);
+            if which & 1 != 0 {
+                s2 = other(r, &persons, &base[i].0).unwrap_or(s2);
+            }
+            if which & 2 != 0 {
+                o2 = other(r, &persons, &base[i].2).unwrap_or(o2);
+            }
+            let cand: Vec<(String, String, String)> = (0..4usize)
+                .map(|c| (if c & 1 != 0 { s2.clone() } else { base[i].0.clone() }, pred.clone(), if c & 2 != 0 { o2.clone() } else { base[i].2.clone() }))
+                .collect();
+            let clash = (0..4).any(|c| (0..base.len()).any(|j| j != i && alts[j][c] == cand[c]));
+            if clash || cand[3] == base[i] {
+                continue;
+            }
+            alts[i] = cand;
+            break;
+        }
+    }
+    for (i, (step, sym, subj, _, obj)) in s.prop_tuples.clone().into_iter().enumerate() {
+        let (s2, p2, o2) = alts[i][3].clone();
+        if (s2.clone(), p2.clone(), o2.clone()) == base[i] {
+            continue;
+        }
+        if let Step::Kml { params, .. } = &mut s.steps[step] {
+            for (k, v) in params.iter_mut() {
+                match k.as_str() {
+                    "s" => *v = PVal::MaskedRef { tag: "subject", s1: subj.clone(), s2: s2.clone() },
+                    "o" => *v = PVal::MaskedRef { tag: "object", s1: obj.clone(), s2: o2.clone() },
+                    _ => {}
+                }
+            }
+        }
+        s.masked_tuples.push(MaskedTuple { sym, s1: base[i].clone(), s2: (s2, p2, o2) });
+    }
+    // --- assertions about / by / citing something else in S2
+    if !props.is_empty() && !persons.is_empty() {
+        for k in 0..2 + r.usize(2) {
+            let sym = format!("assertion_late{k}");
+            let prop = r.pick(&props).clone();
+            let actor = r.pick(&persons).clone();
+            let prop2 = if r.chance(2, 3) { other(r, &props, &prop) } else { None }.unwrap_or_else(|| prop.clone());
+            let actor2 = if r.chance(2, 3) { other(r, &persons, &actor) } else { None }.unwrap_or_else(|| actor.clone());
+            let mut params = vec![
+                ("p".to_string(), PVal::MaskedRef { tag: "proposition_id", s1: prop.clone(), s2: prop2 }),
+                ("actor".to_string(), PVal::MaskedRef { tag: "asserted_by", s1: actor.clone(), s2: actor2 }),
+            ];
+            let mut cited = None;
+            let st = if !evidence.is_empty() && r.chance(2, 3) {
+                let ev = r.pick(&evidence).clone();
+                let ev2 = if r.chance(2, 3) { other(r, &evidence, &ev) } else { None }.unwrap_or_else(|| ev.clone());
+                params.push(("ev".to_string(), PVal::MaskedRef { tag: "evidence_refs", s1: ev.clone(), s2: ev2 }));
+                cited = Some(ev);
+                r#" SET STRUCTURAL { ("evidence", :ev) {role: "support"} }"#
+            } else {
+                ""
+            };
+            s.steps.push(Step::Kml {
+                cmd: format!(r#"CREATE ASSERTION ?a {{ SET FIELDS {{ proposition: :p, asserted_by: :actor, stance: "support", mode: "observed", confidence: 0.6 }}{st} }}"#),
+                params,
+                binds: vec![("a".into(), sym.clone())],
+            });
+            s.late.push(Late { sym, prop: Some(prop), actor: Some(actor), evidence: cited });
+        }
+    }
+    // --- an evidence record derived from another one
+    if let Some(src) = evidence.first().cloned() {
+        let src2 = other(r, &evidence, &src).unwrap_or_else(|| src.clone());
+        let sym = "evidence_late0".to_string();
+        s.steps.push(Step::Kml {
+            cmd: r#"CREATE EVIDENCE ?e { SET FIELDS { evidence_class: "tool_result", payload: "a derived note" } SET STRUCTURAL { ("source", :src) } }"#.into(),
+            params: vec![("src".into(), PVal::MaskedRef { tag: "source_refs", s1: src.clone(), s2: src2 })],
+            binds: vec![("e".into(), sym.clone())],
+        });
+        s.late.push(Late { sym, prop: None, actor: None, evidence: Some(src) });
+    }
 }
 
 // ---------------------------------------------------------------------------------------------
@@ -585,6 +784,7 @@ const INFLUENCE: [&str; 4] = ["descriptive", "advisory", "behavioral", "executab
 const KINDS: [&str; 4] = ["concept", "proposition", "assertion", "evidence"];
 /// View members a field mask can name, per kind (`id`, `kind`, `space_id` survive every mask).
 const CONCEPT_FIELDS: [&str; 7] = ["name", "key", "attributes", "facets", "_system", "schema_ref", "aliases"];
+const PROPOSITION_FIELDS: [&str; 6] = ["subject", "predicate_ref", "object", "attributes", "facets", "_system"];
 const ASSERTION_FIELDS: [&str; 7] = ["proposition_id", "asserted_by", "stance", "mode", "confidence", "lifecycle", "_system"];
 /// An instant that has certainly passed, in the engine's canonical form.
 const LONG_AGO: &str = "2020-01-01T00:00:00.000Z";
@@ -746,49 +946,61 @@ fn combine_sources(rng: &mut Rng, cfg: &mut GovCfg, mode: Mode, n: u64) {
     let via = *rng.pick(&VIAS);
     let strs = |xs: &[&str]| xs.iter().map(|x| x.to_string()).collect::<Vec<String>>();
     let same_ceiling = Extra { via, kinds: vec![], fields: vec![], ceiling: cfg.ceiling, ceiling_as_scope: rng.chance(1, 3), max_results: None, actions: read_actions(rng), expired: false };
-    if mode == Mode::MaskedFields && n % 4 != 0 {
+    if mode == Mode::MaskedFields && n % 5 != 0 {
         // (the narrow second grant shows `name` of concepts: it would undo a mask built to hide it)
         cfg.second_grant = false;
     }
     match mode {
-        Mode::MaskedFields => match n % 4 {
+        Mode::MaskedFields => match n % 5 {
             0 => {} // a single (masked) source, as generated
             1 => {
                 // Assertions under a mask, Concepts and Propositions in full: what the least
                 // restrictive source shows of a Concept says nothing about an Assertion
                 cfg.shape = "masked_assertions_beside_unmasked_concepts";
-                let hide: &[&str] = [&["stance", "mode"][..], &["mode", "confidence"], &["stance", "confidence"], &["stance", "mode", "confidence"]][((n / 4) % 4) as usize];
+                // (every other one also hides which proposition an assertion is about; which evidence
+                // it cites is never in the mask)
+                let hide: &[&str] = [&["stance", "mode"][..], &["mode", "confidence", "proposition_id"], &["stance", "confidence"], &["stance", "mode", "confidence", "proposition_id", "asserted_by"]][((n / 5) % 4) as usize];
                 cfg.kinds = if rng.bool() { strs(&["assertion"]) } else { strs(&["assertion", "evidence"]) };
                 cfg.fields = mask_without(rng, &ASSERTION_FIELDS, hide);
-                if rng.chance(2, 3) && !cfg.fields.iter().any(|f| f == "proposition_id") {
+                if !hide.contains(&"proposition_id") && rng.chance(2, 3) && !cfg.fields.iter().any(|f| f == "proposition_id") {
                     cfg.fields.push("proposition_id".into());
                 }
                 // every other one: the masked source also carries a result cap, the other none
                 // (the cap then applies to a read only through the elements it loads)
-                cfg.max_results = if (n / 4) % 2 == 0 { Some(1 + rng.below(2)) } else { None };
+                cfg.max_results = if (n / 5) % 2 == 0 { Some(1 + rng.below(2)) } else { None };
                 let kinds = if cfg.kinds.len() == 1 && rng.bool() { strs(&["concept", "proposition", "evidence"]) } else { strs(&["concept", "proposition"]) };
                 cfg.extras.push(Extra { kinds, ..same_ceiling });
             }
             2 => {
                 // the other way round
                 cfg.shape = "masked_concepts_beside_unmasked_assertions";
-                let hide: &[&str] = [&["name"][..], &["key"], &["attributes", "facets"], &["name", "key"]][((n / 4) % 4) as usize];
+                let hide: &[&str] = [&["name"][..], &["key"], &["attributes", "facets"], &["name", "key"]][((n / 5) % 4) as usize];
                 cfg.kinds = if rng.bool() { strs(&["concept"]) } else { strs(&["concept", "proposition"]) };
                 cfg.fields = mask_without(rng, &CONCEPT_FIELDS, hide);
-                cfg.max_results = if (n / 4) % 2 == 1 { Some(1 + rng.below(2)) } else { None };
+                cfg.max_results = if (n / 5) % 2 == 1 { Some(1 + rng.below(2)) } else { None };
                 let kinds = if cfg.kinds.len() == 1 { strs(&["assertion", "evidence", "proposition"]) } else { strs(&["assertion", "evidence"]) };
                 cfg.extras.push(Extra { kinds, ..same_ceiling });
             }
-            _ => {
+            3 => {
                 // two sources over the same kinds whose masks differ (e.g. a mask by policy, another
                 // by grant): only what BOTH hide is certainly hidden
                 cfg.shape = "two_masks_over_the_same_kinds";
-                let hide: &[&str] = [&["attributes", "stance"][..], &["facets", "confidence"], &["key", "mode"], &["name", "stance", "mode"]][((n / 4) % 4) as usize];
-                let pool: Vec<&str> = CONCEPT_FIELDS.iter().chain(ASSERTION_FIELDS.iter()).chain(["subject", "object", "predicate_ref", "payload"].iter()).copied().collect();
+                let hide: &[&str] = [&["attributes", "stance", "subject"][..], &["facets", "confidence", "object", "proposition_id"], &["key", "mode", "predicate_ref", "evidence_refs"], &["name", "stance", "mode", "subject", "object", "asserted_by"]][((n / 5) % 4) as usize];
+                let pool: Vec<&str> = CONCEPT_FIELDS.iter().chain(ASSERTION_FIELDS.iter()).chain(["subject", "object", "predicate_ref", "payload", "evidence_refs", "source_refs"].iter()).copied().collect();
                 cfg.kinds = vec![];
                 cfg.fields = mask_without(rng, &pool, hide);
                 let fields = mask_without(rng, &pool, hide);
                 cfg.extras.push(Extra { fields, ..same_ceiling });
+            }
+            _ => {
+                // Propositions under a mask that hides members of the tuple, everything else in
+                // full: p reads both endpoints, only not that this proposition connects them
+                cfg.shape = "masked_propositions_beside_unmasked_concepts";
+                let hide: &[&str] = [&["subject"][..], &["object"], &["subject", "object"], &["subject", "predicate_ref", "object"]][((n / 5) % 4) as usize];
+                cfg.kinds = strs(&["proposition"]);
+                cfg.fields = mask_without(rng, &PROPOSITION_FIELDS, hide);
+                cfg.max_results = if (n / 5) % 2 == 0 { Some(1 + rng.below(2)) } else { None };
+                cfg.extras.push(Extra { kinds: strs(&["concept", "assertion", "evidence"]), ..same_ceiling });
             }
         },
         Mode::HiddenElements => match n % 6 {
@@ -1199,6 +1411,16 @@ fn masks(cfg: &GovCfg, kind: &str, field: &str) -> bool {
     reached
 }
 
+/// Reference members that vary under a mask: (tag, element kind, view key of the member).
+const LINK_MEMBERS: [(&str, &str, &str); 6] = [
+    ("subject", "proposition", "subject"),
+    ("object", "proposition", "object"),
+    ("proposition_id", "assertion", "proposition_id"),
+    ("asserted_by", "assertion", "asserted_by"),
+    ("evidence_refs", "assertion", "evidence_refs"),
+    ("source_refs", "evidence", "source_refs"),
+];
+
 async fn space_seq(nx: &CognitiveNexus) -> Result<u64, String> {
     Ok(nx.store.get_space(DEFAULT_SPACE).await.map_err(gerr("get_space"))?.seq)
 }
@@ -1221,6 +1443,7 @@ async fn build(name: &str, script: &Script, cfg: &GovCfg, variant: usize, tail: 
         vary_mode: masked_mode && masks(cfg, "assertion", "mode"),
         vary_name: masked_mode && masks(cfg, "concept", "name"),
         vary_key: masked_mode && masks(cfg, "concept", "key"),
+        vary_links: LINK_MEMBERS.iter().filter(|(_, kind, field)| masked_mode && masks(cfg, kind, field)).map(|(tag, _, _)| *tag).collect(),
         base_seq: 0,
         start_seq: 0,
         hidden_as: hidden_as.clone(),
@@ -1280,7 +1503,9 @@ fn qp(family: &'static str, cmd: &str, params: Vec<(&str, PVal)>) -> Q {
     Q { family, cmd: cmd.to_string(), params: params.into_iter().map(|(k, v)| (k.to_string(), v)).collect(), paged: None }
 }
 
-fn battery(rng: &mut Rng, s: &Script) -> Vec<Q> {
+/// `links`: with the entries that select on reference members a mask can hide (the tuple of a
+/// proposition, what an assertion is about / by / cites) - the non-interference monitor only.
+fn battery(rng: &mut Rng, s: &Script, links: bool) -> Vec<Q> {
     let mut b = vec![];
     let lit = |v: Value| PVal::Lit(v);
     let word = |rng: &mut Rng| rng.pick(&WORDS).to_string();
@@ -1391,6 +1616,16 @@ fn battery(rng: &mut Rng, s: &Script) -> Vec<Q> {
     if let Some(p) = s.props.first() {
         b.push(qp("masked_pattern", r#"FIND(?a.id) WHERE { ?a ASSERTION {proposition: :p, stance: "support"} }"#, vec![("p", PVal::Id(p.clone()))]));
     }
+    if links {
+        link_battery(&mut b, s);
+        // paged walks (CURSOR > 0) over a term that a hidden crowd of the bigger instance outranks
+        if let Some(w) = &s.crowd_word {
+            for lim in [1, 2] {
+                b.push(Q { paged: Some(lim), ..qp("search", "SEARCH CONCEPT :term LIMIT :lim", vec![("term", lit(json!(w)))]) });
+            }
+            b.push(Q { paged: Some(1), ..qp("search", "SEARCH COGNITION :term LIMIT :lim", vec![("term", lit(json!(w)))]) });
+        }
+    }
     // --- the first element only the bigger instance has (hidden there)
     let ghost = s.first_tail_concept.clone();
     b.push(qp("tail_element", r#"FIND(?c) WHERE { ?c CONCEPT {id: :id} }"#, vec![("id", lit(json!(ghost)))]));
@@ -1452,6 +1687,98 @@ fn battery(rng: &mut Rng, s: &Script) -> Vec<Q> {
     // --- PREVIEW computes an effect over real state
     b.push(qp("preview", "PREVIEW KML :cmd", vec![("cmd", lit(json!(r#"ARCHIVE ?c WHERE { ?c CONCEPT {type: "Person"} } LIMIT 50"#)))]));
     b
+}
+
+/// Battery entries that select on REFERENCE members a field mask can hide. Every entry names the
+/// values the member has in S1 (the same command goes to both instances).
+///  * family `masked_tuple`: tuple patterns over a proposition whose subject / object differs
+///    in S2 - bound subject, bound object (as reference and as id string), both bound,
+///    both variables by predicate, a variable predicate; joined with element patterns; hop-quantified
+///    and alternated paths through it; NOT / OPTIONAL / UNION / COUNT; ORDER BY + LIMIT and paging;
+///    at a past coordinate; EXPORT with a tuple selection and with a referential closure; the
+///    members read through the view by id;
+///  * family `belief_tuple`: BELIEF named by such a tuple, BELIEF of what a tuple pattern bound,
+///    BELIEF SLOT of its subject; BELIEF SLOT of a slot that holds one more, hidden, proposition
+///    in the bigger instance (mode hidden_elements);
+///  * family `masked_link`: assertions selected by the proposition they are about / the actor they
+///    are by (bound, as variables, negated, counted), the evidence they cite and the source of an
+///    evidence record (read, filtered, exported with a provenance closure).
+fn link_battery(b: &mut Vec<Q>, s: &Script) {
+    let last_step = s.steps.len() - 1;
+    for (n, t) in s.masked_tuples.iter().take(2).enumerate() {
+        let (subj, pred, obj) = t.s1.clone();
+        let pred2 = PREDICATES.iter().find(|p| **p != pred).unwrap_or(&"mentions");
+        let sp = || ("s", PVal::Ref(subj.clone()));
+        let op = || ("o", PVal::Ref(obj.clone()));
+        let mut add = |family: &'static str, cmd: String, params: Vec<(&str, PVal)>| b.push(qp(family, &cmd, params));
+        add("masked_tuple", format!(r#"FIND(?o.id) WHERE {{ (:s, "{pred}", ?o) }}"#), vec![sp()]);
+        add("masked_tuple", format!(r#"FIND(?s.id, ?s.name) WHERE {{ (?s, "{pred}", :o) }}"#), vec![op()]);
+        add("masked_tuple", r#"FIND(?p.id, ?pred) WHERE { ?p PROPOSITION (:s, ?pred, :o) }"#.into(), vec![sp(), op()]);
+        add("masked_tuple", format!(r#"FIND(?c.id, ?c.name) WHERE {{ ?c CONCEPT {{type: "Person"}} (?c, "{pred}", :o) }}"#), vec![op()]);
+        add("masked_tuple", format!(r#"FIND(?y.id) WHERE {{ (:s, "{pred}"{{1,2}}, ?y) }}"#), vec![sp()]);
+        add("masked_tuple", format!(r#"FIND(?c.id) WHERE {{ ?c CONCEPT {{type: "Person"}} NOT {{ (?c, "{pred}", :o) }} }}"#), vec![op()]);
+        add("masked_tuple", r#"FIND(COUNT(?o)) WHERE { (:s, ?pred, ?o) }"#.into(), vec![sp()]);
+        add("masked_tuple", format!(r#"EXPORT CAPSULE ?p WHERE {{ ?p PROPOSITION (:s, "{pred}", ?o) }}"#), vec![sp()]);
+        add("belief_tuple", format!(r#"FIND(?b.status) WHERE {{ ?b BELIEF (:s, "{pred}", :o) }}"#), vec![sp(), op()]);
+        if n > 0 {
+            continue;
+        }
+        // the first such proposition gets the long list
+        add("masked_tuple", format!(r#"FIND(?s.id) WHERE {{ (?s, "{pred}", :oid) }}"#), vec![("oid", PVal::Id(obj.clone()))]);
+        add("masked_tuple", format!(r#"FIND(?p.id) WHERE {{ ?p PROPOSITION (:s, "{pred}", :o) }}"#), vec![sp(), op()]);
+        add("masked_tuple", format!(r#"FIND(?s.id, ?o.id) WHERE {{ (?s, "{pred}", ?o) }}"#), vec![]);
+        add("masked_tuple", format!(r#"FIND(?c.name) WHERE {{ (:s, "{pred}", ?c) ?c CONCEPT {{type: "Person"}} }}"#), vec![sp()]);
+        add("masked_tuple", format!(r#"FIND(?a.id) WHERE {{ ?p PROPOSITION (:s, "{pred}", ?o) ?a ASSERTION {{proposition: ?p}} }}"#), vec![sp()]);
+        add("masked_tuple", format!(r#"FIND(?x.id) WHERE {{ (?x, "{pred}"{{1,3}}, :o) }}"#), vec![op()]);
+        add("masked_tuple", format!(r#"FIND(?y.id) WHERE {{ (:s, "{pred}"{{0,2}}, ?y) }}"#), vec![sp()]);
+        add("masked_tuple", format!(r#"FIND(?x.id, ?y.id) WHERE {{ (?x, "{pred}"{{2,3}}, ?y) }}"#), vec![]);
+        add("masked_tuple", format!(r#"FIND(?c.id) WHERE {{ ?c CONCEPT {{type: "Person"}} (?c, "{pred}"{{1,2}}, :o) }}"#), vec![op()]);
+        add("masked_tuple", format!(r#"FIND(?y.id) WHERE {{ (:s, "{pred}" | "{pred2}", ?y) }}"#), vec![sp()]);
+        add("masked_tuple", r#"FIND(?c.id) WHERE { ?c CONCEPT {type: "Person"} NOT { (:s, ?pred, ?c) } }"#.into(), vec![sp()]);
+        add("masked_tuple", format!(r#"FIND(?c.id, ?p.id) WHERE {{ ?c CONCEPT {{type: "Person"}} OPTIONAL {{ ?p PROPOSITION (?c, "{pred}", :o) }} }}"#), vec![op()]);
+        add("masked_tuple", format!(r#"FIND(?x.id) WHERE {{ (:s, "{pred}", ?x) UNION {{ (?x, "{pred}", :o) }} }}"#), vec![sp(), op()]);
+        add("masked_tuple", format!(r#"FIND(COUNT(?p), COUNT(DISTINCT ?s)) WHERE {{ ?p PROPOSITION (?s, "{pred}", ?o) }}"#), vec![]);
+        add("masked_tuple", format!(r#"FIND(?p.id) WHERE {{ ?p PROPOSITION (?s, "{pred}", ?o) }} ORDER BY ?o.id DESC LIMIT 1"#), vec![]);
+        add("masked_tuple", format!(r#"FIND(?s.id) WHERE {{ (?s, "{pred}", ?o) }} ORDER BY ?s.name ASC, ?s.id ASC LIMIT 2"#), vec![]);
+        add("masked_tuple", format!(r#"FIND(?o.id) WHERE {{ (:s, "{pred}", ?o) }} AS OF SEQ :seq"#), vec![sp(), ("seq", PVal::SeqOfStep(last_step))]);
+        add("masked_tuple", format!(r#"EXPORT CAPSULE ?o WHERE {{ (:s, "{pred}", ?o) }}"#), vec![sp()]);
+        add("masked_tuple", r#"EXPORT CAPSULE ?p WHERE { ?p PROPOSITION (id: :pid) } WITH {closure: "referential"}"#.into(), vec![("pid", PVal::Id(t.sym.clone()))]);
+        add("masked_tuple", r#"FIND(?p.subject, ?p.predicate_ref, ?p.object) WHERE { ?p PROPOSITION (id: :pid) }"#.into(), vec![("pid", PVal::Id(t.sym.clone()))]);
+        add("masked_tuple", r#"FIND(?p.id) WHERE { ?a ASSERTION {proposition: ?p} FILTER(IS_NULL(?p.object)) }"#.into(), vec![]);
+        add("masked_tuple", "HISTORY ELEMENT :pid".into(), vec![("pid", PVal::Id(t.sym.clone()))]);
+        add("belief_tuple", r#"FIND(?p.id, ?b.status) WHERE { ?p PROPOSITION (:s, ?pred, ?o) ?b BELIEF (?p) }"#.into(), vec![sp()]);
+        add("belief_tuple", format!(r#"FIND(?slot) WHERE {{ ?slot BELIEF SLOT (:s, "{pred}") }}"#), vec![sp()]);
+        b.push(Q { paged: Some(1), ..qp("masked_tuple", r#"FIND(?o.id) WHERE { (:s, ?pred, ?o) } ORDER BY ?o.id ASC LIMIT :lim"#, vec![sp()]) });
+    }
+    // --- a slot that holds one more proposition in the bigger instance, hidden there
+    for (subj, pred) in s.tail_slots.iter().take(2) {
+        b.push(qp("belief_tuple", &format!(r#"FIND(?slot) WHERE {{ ?slot BELIEF SLOT (:s, "{pred}") }}"#), vec![("s", PVal::Ref(subj.clone()))]));
+        b.push(qp("belief_tuple", &format!(r#"FIND(COUNT(?p)) WHERE {{ ?p PROPOSITION (:s, "{pred}", ?o) }}"#), vec![("s", PVal::Ref(subj.clone()))]));
+    }
+    // --- what an assertion is about / by / cites, what an evidence record derives from
+    for l in s.late.iter().filter(|l| l.prop.is_some()).take(2) {
+        let (prop, actor) = (l.prop.clone().unwrap_or_default(), l.actor.clone().unwrap_or_default());
+        b.push(qp("masked_link", r#"FIND(?a.id) WHERE { ?a ASSERTION {proposition: :p} }"#, vec![("p", PVal::Id(prop.clone()))]));
+        b.push(qp("masked_link", r#"FIND(COUNT(?a)) WHERE { ?a ASSERTION {asserted_by: :c} }"#, vec![("c", PVal::Id(actor.clone()))]));
+        b.push(qp("masked_link", r#"FIND(?a.id, ?a.proposition_id, ?a.asserted_by, ?a.evidence_refs) WHERE { ?a ASSERTION {id: :a} }"#, vec![("a", PVal::Id(l.sym.clone()))]));
+        b.push(qp("masked_link", r#"EXPORT CAPSULE ?a WHERE { ?a ASSERTION {id: :a} } WITH {closure: "referential", provenance_depth: 2}"#, vec![("a", PVal::Id(l.sym.clone()))]));
+        b.push(qp("masked_link", r#"FIND(?c.id) WHERE { ?c CONCEPT {type: "Person"} NOT { ?a ASSERTION {asserted_by: ?c, proposition: :p} } }"#, vec![("p", PVal::Id(prop.clone()))]));
+        b.push(qp("masked_link", r#"FIND(?a.id) WHERE { ?p PROPOSITION (id: :p) ?a ASSERTION {proposition: ?p} }"#, vec![("p", PVal::Id(prop))]));
+        if l.evidence.is_some() {
+            b.push(q("masked_link", r#"FIND(?a.id, ?a.evidence_refs) WHERE { ?a ASSERTION {} FILTER(IS_NOT_NULL(?a.evidence_refs)) } ORDER BY ?a.evidence_refs ASC, ?a.id ASC"#));
+        }
+    }
+    if !s.late.is_empty() {
+        b.push(q("masked_link", r#"FIND(COUNT(DISTINCT ?p), COUNT(?a)) WHERE { ?a ASSERTION {proposition: ?p} }"#));
+        b.push(q("masked_link", r#"FIND(?a.id, ?c.id) WHERE { ?a ASSERTION {asserted_by: ?c} } ORDER BY ?c.id ASC, ?a.id ASC LIMIT 3"#));
+        b.push(q("masked_link", r#"FIND(?p.id) WHERE { ?p PROPOSITION (?s, ?pred, ?o) NOT { ?a ASSERTION {proposition: ?p, status: "active"} } }"#));
+        b.push(q("belief_tuple", r#"FIND(?p.id, ?b.status) WHERE { ?a ASSERTION {proposition: ?p} ?b BELIEF (?p) }"#));
+    }
+    for l in s.late.iter().filter(|l| l.prop.is_none()) {
+        b.push(qp("masked_link", r#"FIND(?e.id, ?e.source_refs) WHERE { ?e EVIDENCE {id: :e} }"#, vec![("e", PVal::Id(l.sym.clone()))]));
+        b.push(qp("masked_link", r#"EXPORT CAPSULE ?e WHERE { ?e EVIDENCE {id: :e} } WITH {closure: "referential", provenance_depth: 2}"#, vec![("e", PVal::Id(l.sym.clone()))]));
+        b.push(q("masked_link", r#"FIND(?e.id) WHERE { ?e EVIDENCE {} FILTER(IS_NOT_NULL(?e.source_refs)) }"#));
+    }
 }
 
 /// Runs one battery entry as `sess`; the observable is the list of response envelopes (one per
@@ -1647,6 +1974,10 @@ fn report(st: &mut Stats, sig: String, mut detail: Value) {
         *e
     };
     st.count(&format!("violations_seen[{sig}]"));
+    if let Some(q) = detail.get("query").and_then(Value::as_str) {
+        // which battery entries show it (all occurrences, not only the two that are reported)
+        st.count(&format!("violations_seen_by_query[{sig}][{}]", q.chars().take(72).collect::<String>()));
+    }
     if n <= 2 {
         // replay coordinates (vcore tags only violations it sees inside the section)
         let section = sig.split('/').nth(1).unwrap_or("ni").to_string();
@@ -1766,6 +2097,78 @@ async fn search_limit_checks(sess: &Session, st: &mut Stats, case: u64, cfg: &Go
     }
 }
 
+/// "Not paged over", for the pages after the first: for one principal on one store, walking
+/// `SEARCH .. LIMIT k` by `next_cursor` to the end gives exactly the hits of `SEARCH .. LIMIT 100`
+/// (same number, same score sequence, same members: ties may be broken either way). A later page
+/// that comes back short or without a cursor because elements the caller may not read filled the
+/// candidate window shows here.
+async fn search_paging_checks(sess: &Session, st: &mut Stats, case: u64, cfg: &GovCfg, store: &str, terms: &[String]) {
+    for term in terms {
+        for kind in ["CONCEPT", "COGNITION"] {
+            let full = match exec(sess, &format!("SEARCH {kind} :term LIMIT 100"), &json!({"term": term})).await {
+                Ok(r) => response_json(&r),
+                Err(_) => continue,
+            };
+            if !succeeded(&full) {
+                continue;
+            }
+            let full_hits = hit_list(&full);
+            for k in [1u64, 2, 3] {
+                let q = Q { paged: Some(k), ..qp("search", &format!("SEARCH {kind} :term LIMIT :lim"), vec![("term", PVal::Lit(json!(term)))]) };
+                // (no script values in the parameters: any World would do)
+                let mut params = json!({"term": term, "lim": k});
+                let mut walked: Vec<(String, f64)> = vec![];
+                let mut cursor: Option<String> = None;
+                let mut pages = 0u64;
+                let mut failed = None;
+                for _ in 0..80 {
+                    let mut cmd = q.cmd.clone();
+                    if let Some(c) = &cursor {
+                        params["cur"] = json!(c);
+                        cmd.push_str(" CURSOR :cur");
+                    }
+                    let page = match exec(sess, &cmd, &params).await {
+                        Ok(r) => r,
+                        Err(e) => {
+                            failed = Some(e);
+                            break;
+                        }
+                    };
+                    let v = response_json(&page);
+                    if !succeeded(&v) {
+                        failed = Some(short(&v, 300));
+                        break;
+                    }
+                    pages += 1;
+                    walked.extend(hit_list(&v));
+                    let next = page.next_cursor.clone().or_else(|| page.results.first().and_then(|x| x.next_cursor.clone()));
+                    match next {
+                        Some(n) if Some(&n) != cursor.as_ref() => cursor = Some(n),
+                        _ => break,
+                    }
+                }
+                st.eval();
+                st.count("search_paging_checks");
+                if pages > 1 {
+                    st.count("search_paging_checks_with_later_pages");
+                }
+                if pages > 2 {
+                    st.count("search_paging_checks_with_three_or_more_pages");
+                }
+                let ok = failed.is_none() && walked.len() == full_hits.len() && is_prefix(&walked, &full_hits);
+                if !ok {
+                    report(
+                        st,
+                        "C19/search_paging/paged_walk_differs_from_the_unpaged_search".into(),
+                        json!({"case": case, "section": "ni", "store": store, "config": format!("{cfg:?}"), "query": format!("SEARCH {kind} {term:?} LIMIT {k} walked by CURSOR"),
+                            "pages": pages, "walked": walked, "LIMIT_100": full_hits, "a_page_failed_with": failed}),
+                    );
+                }
+            }
+        }
+    }
+}
+
 /// The permission a battery command needs and p does not hold under `cfg`, if any.
 fn missing_permission(cfg: &GovCfg, cmd: &str) -> Option<&'static str> {
     let holds = |a: &str| cfg.holds(a);
@@ -1855,7 +2258,7 @@ fn ni_case(case: u64, rng: &mut Rng, st: &mut Stats, thorough: bool) {
         }
     }
     let hidden_as = if per_kind.is_empty() { hidden_as } else { HiddenAs::PerKind(per_kind, Box::new(hidden_as)) };
-    let bat = battery(rng, &script);
+    let bat = battery(rng, &script, true);
     let mut search_terms: Vec<String> = (0..2).map(|_| rng.pick(&WORDS).to_string()).collect();
     if let Some(w) = &script.crowd_word {
         search_terms.push(w.clone());
@@ -1908,6 +2311,14 @@ fn ni_case(case: u64, rng: &mut Rng, st: &mut Stats, thorough: bool) {
                     st.count(&format!("masked_configurations_varying_{what}"));
                 }
             }
+            for (tag, kind, _) in LINK_MEMBERS {
+                if w2.vary_links.contains(tag) {
+                    st.count(&format!("masked_configurations_varying_{kind}_{tag}"));
+                }
+            }
+            if ["subject", "object"].iter().any(|t| w2.vary_links.contains(t)) && !script.masked_tuples.is_empty() {
+                st.count("masked_configurations_with_a_proposition_whose_tuple_differs");
+            }
         }
         let mut nontrivial = false;
         let mut allowed_some = false;
@@ -1950,7 +2361,10 @@ fn ni_case(case: u64, rng: &mut Rng, st: &mut Stats, thorough: bool) {
             // an Epistemic Projection may be computed from assertions whose raw stance / confidence
             // the caller's mask hides (Spec 29.4: `project` is a permission of its own and "MAY allow
             // a projected result without revealing raw Evidence"): not judged, counted
-            let judged = !(q.family == "belief" && (w2.vary_stance || w2.vary_confidence || w2.vary_mode));
+            // (likewise which proposition an assertion is about, whom it is by and what it cites:
+            // the projection counts and groups assertions by exactly these)
+            let assertion_members_vary = w2.vary_stance || w2.vary_confidence || w2.vary_mode || ["proposition_id", "asserted_by", "evidence_refs"].iter().any(|t| w2.vary_links.contains(t));
+            let judged = !(q.family.starts_with("belief") && assertion_members_vary);
             if !judged {
                 st.count("belief_pairs_not_judged_projection_may_use_masked_fields");
             }
@@ -2015,6 +2429,9 @@ fn ni_case(case: u64, rng: &mut Rng, st: &mut Stats, thorough: bool) {
                         "hidden_as": format!("{hidden_as:?}"),
                         "space_seq(S1|S2)": [space_seq(&w1.nx).await.unwrap_or(0), space_seq(&w2.nx).await.unwrap_or(0)],
                         "base_seq": w1.base_seq,
+                        "masked_reference_members_that_differ": w2.vary_links.iter().collect::<Vec<_>>(),
+                        "propositions_whose_tuple_may_differ(id, S1, S2 if subject and object are both masked)": if mode == Mode::MaskedFields { script.masked_tuples.iter().map(|t| json!([w1.id(&t.sym),
+                            [w1.id(&t.s1.0), t.s1.1, w1.id(&t.s1.2)], [w1.id(&t.s2.0), t.s2.1, w1.id(&t.s2.2)]])).collect::<Vec<_>>() } else { vec![] },
                         "s2_only_tail": if mode == Mode::HiddenElements { script.tail.iter().map(|t| match t {
                             Step::Kml { cmd, params, .. } => format!("{cmd}  {}", w2.params(&script, 1, params)),
                             Step::Classify { sym, label } => format!("classify({}, {label})", w2.id(sym)),
@@ -2033,10 +2450,16 @@ fn ni_case(case: u64, rng: &mut Rng, st: &mut Stats, thorough: bool) {
                     st.count("ni_pairs_p_answered_and_owner_sees_difference");
                     st.count(&format!("ni_decisive_pairs_{}", q.family));
                     st.count(&format!("ni_decisive_pairs_mode_{}", mode.tag()));
+                    if judged {
+                        st.count(&format!("ni_decisive_judged_pairs_{}_{}", mode.tag(), q.family));
+                    }
                     if cfg.shape != "single_source" {
                         st.count(&format!("ni_decisive_pairs_shape_{}", cfg.shape));
                         if q.family == "masked_pattern" {
                             st.count(&format!("ni_decisive_masked_pattern_pairs_shape_{}", cfg.shape));
+                        }
+                        if q.family == "masked_tuple" {
+                            st.count(&format!("ni_decisive_masked_tuple_pairs_shape_{}", cfg.shape));
                         }
                     }
                 }
@@ -2048,6 +2471,15 @@ fn ni_case(case: u64, rng: &mut Rng, st: &mut Stats, thorough: bool) {
             }
             search_limit_checks(&p1, st, case, &cfg, "S1", &search_terms).await;
             search_limit_checks(&p2, st, case, &cfg, "S2", &search_terms).await;
+            if cfg.holds("search") {
+                // the crowd word (where there is one) and one more term, in both instances
+                let terms: Vec<String> = search_terms.iter().rev().take(2).cloned().collect();
+                search_paging_checks(&p1, st, case, &cfg, "S1", &terms).await;
+                search_paging_checks(&p2, st, case, &cfg, "S2", &terms).await;
+                if script.crowd_word.is_some() {
+                    st.count("search_paging_configurations_with_a_hidden_crowd");
+                }
+            }
         }
         if nontrivial {
             st.count("nontrivial_configurations");
@@ -2091,19 +2523,26 @@ fn neutral(bat: &[Q]) -> Vec<&Q> {
 }
 
 const FRESH: &str = "kip:principal:fresh";
+const FRESH_NOTHING: &str = "kip:principal:fresh-nothing";
 
 fn timeline_case(case: u64, rng: &mut Rng, st: &mut Stats) {
     let script = gen_script(rng, 4);
     let mut cfg = gen_cfg(rng);
-    let bat = battery(rng, &script);
+    let bat = battery(rng, &script, false);
     // every kind of event in turn, so that each is exercised whatever the seed
-    const EVENTS: [&str; 8] = ["revoke", "suspend", "revoke_principal", "deny", "expiry", "leave_group", "policy_withdrawn", "revoke_delegation"];
+    const EVENTS: [&str; 9] = ["revoke", "suspend", "revoke_principal", "deny", "expiry", "leave_group", "policy_withdrawn", "revoke_delegation", "revoke_ancestor_link"];
     let event = EVENTS[(case % EVENTS.len() as u64) as usize];
+    let round = case / EVENTS.len() as u64;
     // make the event applicable
     match event {
         "leave_group" => cfg.path = "group",
         "policy_withdrawn" => cfg.path = *rng.pick(&["policy_scope", "policy_ceiling"]),
-        "revoke_delegation" => cfg.path = *rng.pick(&["delegation", "chain"]),
+        // the last link of a one-link and of a two-link chain in turn
+        "revoke_delegation" => cfg.path = if round % 2 == 0 { "delegation" } else { "chain" },
+        // the first link of a two-link chain
+        "revoke_ancestor_link" => cfg.path = "chain",
+        // every other one: the grant of the delegator a (one- / two-link) chain starts from
+        "revoke" if round % 2 == 0 => cfg.path = if (round / 2) % 2 == 0 { "delegation" } else { "chain" },
         "revoke" | "expiry" => {
             if cfg.path.starts_with("policy") {
                 cfg.path = *rng.pick(&["grant", "group", "delegation", "chain"]);
@@ -2160,10 +2599,32 @@ fn timeline_case(case: u64, rng: &mut Rng, st: &mut Stats) {
             set_policy(&nx, policy.clone()).await?;
         }
         let p = session(&nx, P);
+        // the same principal through a session that NAMES the delegation chain it acts under
+        // (delegator-first): it holds what that chain confers, and nothing once the chain is cut
+        let named: Option<Session> = if matches!(cfg.path, "delegation" | "chain") && event != "expiry" && !inst.delegations.is_empty() {
+            let chain: Vec<String> = inst.delegations.iter().map(|d| anda_cognitive_nexus::governance::store::delegation_id(*d)).collect();
+            st.count("timeline_named_chain_sessions");
+            st.count(&format!("timeline_named_chain_sessions_{}_links", chain.len()));
+            Some(nx.session(AuthContext::principal(P).with_delegation_chain(chain)))
+        } else {
+            None
+        };
         let before: Vec<Value> = {
             let mut v = vec![];
             for q in neutral(&bat) {
                 v.push(mask(&observe(&p, &w, &script, 0, q).await));
+            }
+            v
+        };
+        let named_before: Vec<Value> = {
+            let mut v = vec![];
+            if let Some(named) = &named {
+                for q in neutral(&bat) {
+                    v.push(mask(&observe(named, &w, &script, 0, q).await));
+                }
+                if v.iter().any(|a| succeeded(a) && !is_denied(a)) && v.iter().zip(neutral(&bat)).any(|(a, q)| q.family == "element" && succeeded(a)) {
+                    st.count("timeline_named_chain_sessions_reading_before_the_event");
+                }
             }
             v
         };
@@ -2176,6 +2637,7 @@ fn timeline_case(case: u64, rng: &mut Rng, st: &mut Stats) {
         match event {
             "revoke" => gov.revoke_grant(inst.grants[0], SYSTEM_PRINCIPAL).await.map_err(gerr("revoke_grant"))?,
             "revoke_delegation" => gov.revoke_delegation(*inst.delegations.last().unwrap(), SYSTEM_PRINCIPAL).await.map_err(gerr("revoke_delegation"))?,
+            "revoke_ancestor_link" => gov.revoke_delegation(inst.delegations[0], SYSTEM_PRINCIPAL).await.map_err(gerr("revoke_delegation (ancestor link)"))?,
             "suspend" => {
                 gov.set_principal_status(P, status::SUSPENDED, SYSTEM_PRINCIPAL).await.map_err(gerr("suspend"))?;
             }
@@ -2235,6 +2697,14 @@ fn timeline_case(case: u64, rng: &mut Rng, st: &mut Stats) {
             st.count(&format!("timeline_kept_source_via_{}", cfg.extras[0].via));
         }
         let f = session(&nx, FRESH);
+        // a principal that holds nothing at all (what a chain-naming session is left with)
+        principal(&nx, FRESH_NOTHING).await?;
+        let f0 = session(&nx, FRESH_NOTHING);
+        // events after which the named chain confers nothing
+        let chain_is_cut = matches!(event, "revoke" | "revoke_delegation" | "revoke_ancestor_link" | "suspend" | "revoke_principal" | "deny");
+        if named.is_some() && chain_is_cut {
+            st.count(&format!("timeline_named_chain_event_{event}_{}_links", inst.delegations.len()));
+        }
         let mut still_allowed = 0;
         for (i, q) in neutral(&bat).into_iter().enumerate() {
             // p's NEXT request after the event
@@ -2270,6 +2740,30 @@ fn timeline_case(case: u64, rng: &mut Rng, st: &mut Stats) {
                             json!({"case": case, "event": event, "config": format!("{cfg:?}"), "query": q.cmd, "params": w.params(&script, 0, &q.params), "answer": short(ans, 1200)}),
                         );
                     }
+                }
+            }
+            // the chain-naming session's NEXT request: refused, or answered exactly as a principal
+            // that holds nothing (commands needing no permission) - or, should the engine let such a
+            // session use what p holds besides the chain, as the fresh principal holding that
+            if let (Some(named), true) = (&named, chain_is_cut) {
+                let mut an = replace_str(&mask(&observe(named, &w, &script, 0, q).await), P, "<caller>");
+                let mut b0 = replace_str(&mask(&observe(&f0, &w, &script, 0, q).await), FRESH_NOTHING, "<caller>");
+                if q.family == "preview" {
+                    an = mask_keys(&an, &SEQ_KEYS);
+                    b0 = mask_keys(&b0, &SEQ_KEYS);
+                }
+                st.eval();
+                st.count("timeline_named_chain_next_request_checks");
+                if succeeded(&named_before[i]) && !succeeded(&an) {
+                    st.count("timeline_named_chain_allowed_before_denied_after");
+                }
+                if !(is_denied(&an) || an == b0 || an == b) {
+                    report(
+                        st,
+                        format!("C19/timeline/{event}/named_chain_session_next_request_is_not_refused"),
+                        json!({"case": case, "event": event, "links": inst.delegations.len(), "config": format!("{cfg:?}"), "query": q.cmd, "params": w.params(&script, 0, &q.params),
+                            "first_difference(named chain session|principal holding nothing)": first_diff(&an, &b0, "$"), "named_chain_session": short(&an, 1200), "principal_holding_nothing": short(&b0, 600)}),
+                    );
                 }
             }
             if a != b {
@@ -2540,7 +3034,7 @@ fn delegation_case(case: u64, rng: &mut Rng, st: &mut Stats) {
         Some((d, r)) => format!("{d}_{}", format!("{r:?}").to_lowercase()),
         None => "every_bound_contained".to_string(),
     };
-    let bat = battery(rng, &script);
+    let bat = battery(rng, &script, false);
     let res: Result<(), String> = vcore::run::block_on(async {
         let nx = fresh_nexus(&format!("c19_dg_{case}")).await?;
         let gov = nx.governance();
@@ -2549,6 +3043,8 @@ fn delegation_case(case: u64, rng: &mut Rng, st: &mut Stats) {
         let mut none = vec![];
         let inst = install(&nx, &cfg, P, "", &mut none).await?;
         let delegate = session(&nx, P);
+        // the delegate again, through a session that names the whole chain (delegator-first)
+        let delegate_named = nx.session(AuthContext::principal(P).with_delegation_chain(inst.delegations.iter().map(|d| anda_cognitive_nexus::governance::store::delegation_id(*d)).collect()));
         // the root delegator and, in a chain, the delegate's own delegator
         // (name, session, whether a result cap makes the SET of rows it is shown arbitrary)
         // every principal up the chain: the delegate holds no more than any of them
@@ -2566,10 +3062,23 @@ fn delegation_case(case: u64, rng: &mut Rng, st: &mut Stats) {
         if slot.is_some() {
             st.count(&format!("delegation_unbounded_or_wider_link_at_{}", if bad_link == 0 { "first" } else if bad_link + 1 == n_links { "last" } else { "middle" }));
         }
-        let phases = ["initial", ["narrowed_ceiling", "narrowed_kinds", "narrowed_actions", "delegator_suspended"][(case % 4) as usize], "revoked"];
+        // (cases whose links are all contained: the delegate holds something, and loses it when its
+        // own - the last - Delegation is revoked, before the delegator loses anything)
+        let mut phases = vec!["initial"];
+        if slot.is_none() && (case / 4) % 2 == 0 {
+            phases.push("last_link_revoked");
+        } else {
+            phases.push(["narrowed_ceiling", "narrowed_kinds", "narrowed_actions", "delegator_suspended"][(case % 4) as usize]);
+        }
+        phases.push("revoked");
+        // which battery entries each delegate session was answered in the previous phase
+        let mut answered_before: [Vec<bool>; 2] = [vec![false; bat.len()], vec![false; bat.len()]];
         for phase in phases {
             match phase {
                 "initial" => {}
+                "last_link_revoked" => {
+                    gov.revoke_delegation(*inst.delegations.last().ok_or("no delegation installed")?, SYSTEM_PRINCIPAL).await.map_err(gerr("revoke_delegation (last link)"))?;
+                }
                 "revoked" => {
                     // whatever the delegator holds now goes away
                     for g in gov.grants_for(DEFAULT_SPACE, LEAD, &[]).await.map_err(gerr("grants_for"))? {
@@ -2605,13 +3114,43 @@ fn delegation_case(case: u64, rng: &mut Rng, st: &mut Stats) {
             }
             st.count(&format!("delegation_phase_{phase}"));
             let mut delegate_allowed_some = false;
-            for q in &bat {
+            for (qi, q) in bat.iter().enumerate() {
                 let a_del = mask(&observe(&delegate, &w, &script, 0, q).await);
                 if succeeded(&a_del) {
                     st.count("delegation_delegate_allowed");
                     // (commands like DESCRIBE PRIMER need no permission at all)
                     delegate_allowed_some |= q.family == "element";
                 }
+                let a_named = mask(&observe(&delegate_named, &w, &script, 0, q).await);
+                if succeeded(&a_named) {
+                    st.count("delegation_named_chain_delegate_allowed");
+                }
+                if phase == "last_link_revoked" {
+                    // the delegate's own Delegation is gone and it holds nothing else: every read of
+                    // the Space's content is refused on its next request, however the session was opened
+                    let reads_content = ["FIND", "SEARCH", "HISTORY", "CHANGES", "EXPORT", "PREVIEW"].iter().any(|k| q.cmd.starts_with(k));
+                    for (k, (how, ans)) in [("plain", &a_del), ("named_chain", &a_named)].into_iter().enumerate() {
+                        if !reads_content {
+                            continue;
+                        }
+                        st.eval();
+                        st.count("delegation_last_link_revoked_checks");
+                        if answered_before[k][qi] {
+                            st.count(&format!("delegation_last_link_revoked_checks_{how}_session_answered_before"));
+                        }
+                        if !is_denied(ans) {
+                            report(
+                                st,
+                                format!("C19/delegation/last_link_revoked/{how}_session_of_the_delegate_is_not_refused"),
+                                json!({"case": case, "phase": phase, "session": how, "links": n_links, "config": format!("{cfg:?}"), "query": q.cmd, "params": w.params(&script, 0, &q.params),
+                                    "answered_before_the_revocation": answered_before[k][qi], "delegate": short(ans, 1200)}),
+                            );
+                        }
+                    }
+                    continue;
+                }
+                answered_before[0][qi] = succeeded(&a_del);
+                answered_before[1][qi] = succeeded(&a_named);
                 for (who, delegator, capped) in &delegators {
                     let a_lead = mask(&observe(delegator, &w, &script, 0, q).await);
                     st.eval();
@@ -2623,6 +3162,33 @@ fn delegation_case(case: u64, rng: &mut Rng, st: &mut Stats) {
                         st.count("delegation_delegator_denied");
                         if !is_denied(&a_del) && succeeded(&a_del) {
                             report(st, format!("C19/delegation/{phase}/delegate_allowed_where_delegator_is_denied"), ctx("denied to the delegator, answered to the delegate"));
+                        }
+                    }
+                    // the chain-naming session of the delegate: the same oracles (denied where the
+                    // delegator is, no id beyond it, no more rows)
+                    {
+                        st.count("delegation_named_chain_checks");
+                        let ctx_named = |what: &str| json!({"case": case, "phase": phase, "against": who, "what": what, "session": "names the delegation chain", "links": n_links, "link_under_test": slot_key, "at_link": bad_link, "config": format!("{cfg:?}"), "query": q.cmd,
+                            "params": w.params(&script, 0, &q.params), "delegator": short(&a_lead, 1000), "delegate": short(&a_named, 1000)});
+                        if is_denied(&a_lead) && succeeded(&a_named) {
+                            report(st, format!("C19/delegation/{phase}/named_chain_delegate_allowed_where_delegator_is_denied"), ctx_named("denied to the delegator, answered to the delegate's chain-naming session"));
+                        }
+                        let monotone = matches!(q.family, "element" | "element_by_id" | "tuple" | "path" | "history" | "changes") && !q.cmd.contains("LIMIT");
+                        if monotone && !*capped && succeeded(&a_named) && succeeded(&a_lead) {
+                            let (mut x, mut y) = (BTreeSet::new(), BTreeSet::new());
+                            ids_in(&a_named["results"][0]["result"], &mut x);
+                            ids_in(&a_lead["results"][0]["result"], &mut y);
+                            st.count("delegation_named_chain_subset_checks");
+                            let extra: Vec<&String> = x.difference(&y).collect();
+                            if !extra.is_empty() {
+                                report(st, format!("C19/delegation/{phase}/named_chain_delegate_sees_more_than_delegator"), json!({"case": case, "extra_ids": extra, "context": ctx_named("ids visible to the delegate's chain-naming session only")}));
+                            }
+                            let rows = |a: &Value| a["results"][0]["result"].as_array().map(|r| r.len());
+                            if let (Some(rd), Some(rl), true) = (rows(&a_named), rows(&a_lead), matches!(q.family, "element" | "tuple" | "path")) {
+                                if rd > rl {
+                                    report(st, format!("C19/delegation/{phase}/named_chain_delegate_gets_more_rows_than_delegator"), json!({"case": case, "rows_delegate": rd, "rows_delegator": rl, "context": ctx_named("more rows for the delegate's chain-naming session")}));
+                                }
+                            }
                         }
                     }
                     if !(succeeded(&a_del) && succeeded(&a_lead)) {
@@ -3120,6 +3686,33 @@ fn main() {
         ("masked_configurations_varying_assertion_stance", f(3)),
         ("masked_configurations_varying_assertion_confidence", f(3)),
         ("masked_configurations_varying_assertion_mode", f(3)),
+        // reference members under a mask: the tuple of a proposition, what an assertion is about /
+        // by / cites, what an evidence record derives from
+        ("masked_configurations_varying_proposition_subject", f(4)),
+        ("masked_configurations_varying_proposition_object", f(4)),
+        ("masked_configurations_varying_assertion_proposition_id", f(3)),
+        ("masked_configurations_varying_assertion_asserted_by", f(3)),
+        ("masked_configurations_varying_assertion_evidence_refs", f(4)),
+        ("masked_configurations_varying_evidence_source_refs", f(3)),
+        ("masked_configurations_with_a_proposition_whose_tuple_differs", f(6)),
+        ("config_shape_masked_fields_masked_propositions_beside_unmasked_concepts", f(3)),
+        ("ni_decisive_pairs_shape_masked_propositions_beside_unmasked_concepts", f(20)),
+        ("ni_decisive_masked_tuple_pairs_shape_masked_propositions_beside_unmasked_concepts", f(25)),
+        ("ni_decisive_masked_tuple_pairs_shape_two_masks_over_the_same_kinds", f(15)),
+        ("ni_decisive_masked_tuple_pairs_shape_masked_concepts_beside_unmasked_assertions", f(8)),
+        ("ni_decisive_pairs_masked_tuple", f(250)),
+        ("ni_decisive_pairs_masked_link", f(100)),
+        ("ni_decisive_pairs_belief_tuple", f(40)),
+        // judged pairs in which ONLY masked members differ (p answered, the owner sees the difference)
+        ("ni_decisive_judged_pairs_masked_fields_masked_tuple", f(100)),
+        ("ni_decisive_judged_pairs_masked_fields_masked_link", f(30)),
+        ("ni_decisive_judged_pairs_masked_fields_belief_tuple", f(3)),
+        ("ni_decisive_judged_pairs_masked_fields_tuple", f(20)),
+        ("ni_decisive_judged_pairs_masked_fields_path", f(6)),
+        ("ni_decisive_judged_pairs_masked_fields_optional_not", f(10)),
+        ("ni_decisive_judged_pairs_masked_fields_export", f(15)),
+        // BELIEF / BELIEF SLOT over tuples and slots with hidden propositions (mode hidden_elements)
+        ("ni_decisive_judged_pairs_hidden_elements_belief_tuple", f(40)),
         ("ni_decisive_pairs_shape_masked_assertions_beside_unmasked_concepts", f(8)),
         ("ni_decisive_pairs_shape_masked_concepts_beside_unmasked_assertions", f(30)),
         ("ni_decisive_pairs_shape_two_masks_over_the_same_kinds", f(30)),
@@ -3141,6 +3734,11 @@ fn main() {
         ("config_path_policy_scope", 1),
         ("config_path_policy_ceiling", 1),
         ("search_limit_checks_with_hits", f(60)),
+        // paged SEARCH walks (CURSOR > 0) against the unpaged search, per store
+        ("search_paging_checks", f(300)),
+        ("search_paging_checks_with_later_pages", f(60)),
+        ("search_paging_checks_with_three_or_more_pages", f(20)),
+        ("search_paging_configurations_with_a_hidden_crowd", f(3)),
         ("configurations_with_a_hidden_crowd_outranking_a_visible_hit", f(3)),
         // authority timeline
         ("timeline_event_revoke", f(4)),
@@ -3151,6 +3749,19 @@ fn main() {
         ("timeline_event_leave_group", f(4)),
         ("timeline_event_policy_withdrawn", f(4)),
         ("timeline_event_revoke_delegation", f(4)),
+        ("timeline_event_revoke_ancestor_link", f(4)),
+        // sessions that NAME the delegation chain they act under
+        ("timeline_named_chain_sessions", f(8)),
+        ("timeline_named_chain_sessions_1_links", f(3)),
+        ("timeline_named_chain_sessions_2_links", f(3)),
+        ("timeline_named_chain_sessions_reading_before_the_event", f(8)),
+        ("timeline_named_chain_event_revoke_delegation_1_links", f(1)),
+        ("timeline_named_chain_event_revoke_delegation_2_links", f(1)),
+        ("timeline_named_chain_event_revoke_ancestor_link_2_links", f(2)),
+        ("timeline_named_chain_event_revoke_1_links", f(1)),
+        ("timeline_named_chain_event_revoke_2_links", f(1)),
+        ("timeline_named_chain_next_request_checks", f(800)),
+        ("timeline_named_chain_allowed_before_denied_after", f(500)),
         ("timeline_next_request_checks", f(2000)),
         ("timeline_allowed_before_denied_after", f(800)),
         ("timeline_one_of_two_sources_removed", f(5)),
@@ -3162,6 +3773,13 @@ fn main() {
         ("delegation_phase_narrowed_actions", f(3)),
         ("delegation_phase_delegator_suspended", f(3)),
         ("delegation_phase_revoked", f(16)),
+        ("delegation_phase_last_link_revoked", f(8)),
+        ("delegation_last_link_revoked_checks", f(1500)),
+        ("delegation_last_link_revoked_checks_plain_session_answered_before", f(500)),
+        ("delegation_last_link_revoked_checks_named_chain_session_answered_before", f(500)),
+        ("delegation_named_chain_checks", f(20000)),
+        ("delegation_named_chain_delegate_allowed", f(1500)),
+        ("delegation_named_chain_subset_checks", f(400)),
         ("delegation_delegator_denied", f(1000)),
         ("delegation_delegate_allowed", f(500)),
         ("delegation_subset_checks", f(150)),
@@ -3220,6 +3838,7 @@ fn main() {
         run.floor(key, min);
     }
     run.assume("the classification ladder public < internal < private < sensitive < secret and the Space default `internal` are the engine's documented defaults; hidden elements are classified `secret` through the host `classify` API, p's ceilings are at most `sensitive`");
+    run.assume("the Schema symbol an element is typed by stays selectable under a field mask that hides it: a Concept's `type`, an Evidence / Activity class (the repository's own field-mask test selects `{type: \"Person\"}` under `fields: [name]`) and, by the same rule, a Proposition's predicate - `Element::schema_ref()` of a Proposition is its `predicate_ref`, what `AuthorityScope.schema_refs` is written in. The masked-field mode therefore varies the subject and object of a proposition, never its predicate; `id`, `kind`, `space_id` survive every mask (governance/redact.rs ALWAYS_VISIBLE)");
     run.assume("S1 and S2 see the same number of commits (S1 is padded with updates of an element hidden in both): the Space sequence is a Space-level coordinate that every receipt, SNAPSHOT and SEARCH answer discloses by design (Spec 5.4, 78), not an element");
     let mut pending = std::mem::take(&mut *PENDING.lock().unwrap());
     pending.sort_by(|a, b| a.0.cmp(&b.0));
